@@ -82,8 +82,9 @@ INTERPS = ["/lib/ld-musl-x86_64.so.1", "/lib/ld-musl-aarch64.so.1", "/lib64/ld-l
            "", "\0", "/lib/ld-MUSL.so", "/lib/libc.musl-x86_64.so.1", "a\0b"]
 
 
-def gen_desc(rng, sane=False):
-    """a mostly well-formed ELF description with a program-header table; ``sane`` keeps every offset small"""
+def gen_desc(rng, sane=False, huge=True):
+    """a mostly well-formed ELF description with a program-header table; ``sane`` switches all damage off,
+    ``huge=False`` only the offsets/sizes beyond a real file's reach (for cases that go through open())"""
     cls = rng.choice([1, 2])
     data = rng.choice([1, 2])
     hsize = 16 + (36 if cls == 1 else 48)     # what the code reads is 46 / 58 bytes; the real header is 52 / 64
@@ -91,13 +92,13 @@ def gen_desc(rng, sane=False):
     d = {"cls": cls, "data": data, "machine": rng.choice(MACHINES), "flags": rng.choice(ARM_FLAGS + [rng.getrandbits(32)]),
          "type": rng.choice([2, 3]), "entry": rng.getrandbits(8 * WORD[cls]), "shoff": rng.getrandbits(8 * WORD[cls]),
          "version": rng.choice([1, rng.getrandbits(32)]), "ident_rest": bytes(rng.getrandbits(8) for _ in range(10)).hex()}
-    phnum = rng.choice([0, 1, 2, 3, 3, 4, 6])
-    phentsize = rng.choice([phsize, phsize, phsize, phsize + 8, phsize - 4, 0, 1, 100])
-    phoff = rng.choice([hsize + 6, hsize + 6, 64, 52, rng.randrange(40, 200)])
+    phnum = rng.choice([0, 1, 2, 3, 3, 4, 4, 6])
+    phentsize = rng.choice([phsize] * 8 + [phsize + 8, phsize - 4, 0, 1, 100])
+    phoff = rng.choice([hsize + 6, hsize + 6, hsize, hsize, 64, 52, rng.randrange(40, 200)])
     d.update(phoff=phoff, phentsize=phentsize, phnum=phnum)
     phs, blobs = [], []
     blob_at = phoff + max(phentsize, phsize) * max(phnum, 1) + 16
-    interp_at = rng.randrange(phnum) if phnum and rng.random() < 0.8 else None
+    interp_at = rng.randrange(phnum) if phnum and rng.random() < 0.9 else None
     for i in range(phnum):
         at = phoff + phentsize * i
         if i == interp_at or rng.random() < 0.15:
@@ -121,9 +122,9 @@ def gen_desc(rng, sane=False):
             d["magic"] = rng.choice(["7f454c47", "00454c46", "7f454c", "454c467f"])
         elif r < 0.14:
             d[rng.choice(["cls", "data"])] = rng.choice([0, 3, 255])
-        elif r < 0.20 and cls == 2:
+        elif r < 0.20 and cls == 2 and huge:
             d["phoff"] = rng.choice([2**64 - 1, 2**63, 2**63 - 1, 2**63 - phentsize * 2, 2**62])
-        elif r < 0.26 and phs:
+        elif r < 0.26 and phs and huge:
             p = rng.choice(phs)
             p["type"] = 3
             p[rng.choice(["offset", "filesz"])] = rng.choice([2**64 - 1, 2**63, 2**63 - 1, 2**32 - 1, 2**31, 10**6])
